@@ -37,5 +37,5 @@ var c05TA = &propTest{
 	observe: c05Observe,
 }
 
-func TestVerifC05TA(t *testing.T)       { c05TA.run(t) }
-func TestVerifC05Replay(t *testing.T)   { c05TA.replay(t) }
+func TestVerifC05TA(t *testing.T)     { c05TA.run(t) }
+func TestVerifC05Replay(t *testing.T) { c05TA.replay(t) }
